@@ -500,6 +500,37 @@ def m_b64enc(I, st, info, args, depth):
 
 
 # ------------------------------------------------------------------ equality on strings
+def describe(I, st, v, depth=0):
+    """canonical text of a string-like abstract value (used to state which two things were compared equal)"""
+    v = deref(I, st, v)
+    if depth > 6:
+        return "..."
+    if isinstance(v, StrV):
+        return repr(v.s) if not isinstance(v.s, bytes) else repr(v.s)
+    if isinstance(v, Seq):
+        if "b64_of" in v.attrs:
+            return "b64(%s)" % describe(I, st, v.attrs["b64_of"], depth + 1)
+        if v.chunks is not None:
+            out = []
+            for c in v.chunks:
+                if c[0] == "lit":
+                    out.append(c[1])
+                elif c[0] == "arg":
+                    out.append("{%s}" % describe(I, st, c[1], depth + 1))
+                else:
+                    out.append("{%s}" % (c[1],))
+            return "".join(out)
+        f = st.facts.get(("streq", v.name))
+        return repr(f) if f is not None else v.name
+    if isinstance(v, Struct) and len(v.fields) >= 1:
+        for k in ("0", "header"):
+            if k in v.fields:
+                return describe(I, st, v.fields[k], depth + 1)
+    if isinstance(v, Sym):
+        return v.name
+    return repr(v)
+
+
 def str_key(I, st, v):
     v = deref(I, st, v)
     if isinstance(v, StrV):
@@ -518,7 +549,16 @@ def str_key(I, st, v):
 
 
 def str_eq(I, st, a, b):
-    """list of (state, bool)"""
+    """list of (state, bool); the equal branch records which two values were found equal"""
+    da, db = describe(I, st, a), describe(I, st, b)
+    out = _str_eq(I, st, a, b)
+    for s2, r in out:
+        if r:
+            s2.events.append(("equal", da, db))
+    return out
+
+
+def _str_eq(I, st, a, b):
     ka, kb = str_key(I, st, a), str_key(I, st, b)
     if ka[0] == "const" and kb[0] == "const":
         return [(st, ka[1] == kb[1])]
@@ -553,7 +593,7 @@ def m_eq(I, st, info, args, depth):
         return None
     nm = info["name"]
     neg = info["tdef"].endswith("ne")
-    if re.search(r"<str as|<&str as|String as|impl core::cmp::PartialEq<&B> for &A|PartialEq<str>|PartialEq<&'a str>|PartialEq<alloc::string::String>|<&A as core::cmp::PartialEq<&B>>|PartialEq for str>|PartialEq<.*> for (str|alloc::string::String|&'a str)>", nm + " " + info["def"]):
+    if re.search(r"<str as|<&str as|String as|impl core::cmp::PartialEq<&B> for &A|PartialEq<str>|PartialEq<&'a str>|PartialEq<alloc::string::String>|<&A as core::cmp::PartialEq<&B>>|PartialEq for str>|PartialEq<.*> for (str|alloc::string::String|&'a str)>|PartialEq for &?\\[u8\\]>|PartialEq<\\[U\\]> for \\[T\\]>|PartialEq<alloc::vec::Vec<U, A2>> for alloc::vec::Vec<T, A1>>", nm + " " + info["def"]):
         return [(s2, "return", BoolV(r != neg)) for s2, r in str_eq(I, st, args[0], args[1])]
     a, b = deref(I, st, args[0]), deref(I, st, args[1])
     if isinstance(a, Aff) and isinstance(b, Aff):
@@ -1118,7 +1158,10 @@ def m_from_utf8(I, st, info, args, depth):
 
 @model(r"^ring::deprecated_constant_time::verify_slices_are_equal$|^ring::constant_time::verify_slices_are_equal$")
 def m_verify_slices(I, st, info, args, depth):
-    return result_fork(I, st, UNIT, "ring::error::Unspecified", "constant-time compare")
+    da, db = describe(I, st, args[0]), describe(I, st, args[1])
+    out = result_fork(I, st, UNIT, "ring::error::Unspecified", "constant-time compare")
+    out[0][0].events.append(("equal", da, db))
+    return out
 
 
 def out_size(name):
